@@ -6,6 +6,7 @@ package main
 
 import (
 	_ "verif/sim/avl"
+	_ "verif/sim/optenv"
 	_ "verif/sim/store"
 	_ "verif/sim/termin"
 	_ "verif/sim/world"
